@@ -475,6 +475,8 @@ func genQuery(r *lib.Rng) (string, map[string]bool) {
 		return eventTimeQuery(r, g.feat), g.feat
 	case 2:
 		return guardedQuery(r, g.feat), g.feat
+	case 3:
+		return sharedSideJoin(r, g.feat), g.feat
 	}
 	src := g.relation(1 + r.Intn(2))
 	var items []string
@@ -503,4 +505,31 @@ func genQuery(r *lib.Rng) (string, map[string]bool) {
 		q = strings.Replace(q, "SELECT ", "SELECT DISTINCT ", 1)
 	}
 	return q, g.feat
+}
+
+// sharedSideJoin: an inner join constrained by several cross-branch equalities that share one side expression
+// (the same column of one branch compared with two expressions of the other), spread over ON and WHERE.
+func sharedSideJoin(r *lib.Rng, feat map[string]bool) string {
+	feat["shared_side_equalities"] = true
+	left := []string{"t.a", "t.b", "t.b + 1", "t.a + 1"}
+	right := []string{"u.x", "u.y", "u.y - 3", "u.x + 1"}
+	var eqs []string
+	if r.Bool() { // one left expression against two right ones
+		l := left[r.Intn(len(left))]
+		i := r.Intn(len(right))
+		j := (i + 1 + r.Intn(len(right)-1)) % len(right)
+		eqs = []string{l + " = " + right[i], l + " = " + right[j]}
+	} else {
+		rr := right[r.Intn(len(right))]
+		i := r.Intn(len(left))
+		j := (i + 1 + r.Intn(len(left)-1)) % len(left)
+		eqs = []string{left[i] + " = " + rr, rr + " = " + left[j]}
+	}
+	if r.Chance(1, 3) {
+		eqs = append(eqs, left[r.Intn(2)]+" = "+right[r.Intn(2)])
+	}
+	if r.Bool() {
+		return fmt.Sprintf("SELECT t.a, t.b, u.x, u.y FROM t.csv t JOIN u.csv u ON %s", strings.Join(eqs, " AND "))
+	}
+	return fmt.Sprintf("SELECT t.a, t.b, u.x, u.y FROM t.csv t JOIN u.csv u ON %s WHERE %s", eqs[0], strings.Join(eqs[1:], " AND "))
 }
